@@ -1,5 +1,400 @@
-use crate::Ctx;
+//! C20 – shutdown stops accepting, not answering; idle workers are reclaimed.
+//!  (a) drop(server) at a seeded moment relative to connecting clients, queued and handed-out
+//!      requests, on TCP and UNIX listeners; connect must be refused within the bound and stay
+//!      refused, the UNIX path must be gone, handed-out requests must still be answerable.
+//!  (b) thread reclamation: library threads (everything not named vh-*) before a burst, at the
+//!      peak, after the idle period, and after the server was dropped.
 
-pub fn run(_ctx: &Ctx) {
-    unimplemented!()
+use crate::alloc::lib;
+use crate::net::{Addr, Client, Got};
+use crate::report::Violation;
+use crate::util::{library_thread_count, sleep_us, spawn_named, CalWindow, Rng, J};
+use crate::Ctx;
+use std::sync::atomic::{AtomicBool, AtomicUsize, Ordering};
+use std::sync::Arc;
+use std::time::{Duration, Instant};
+use tiny_http::verif as v;
+use tiny_http::{Response, Server};
+
+fn own_ip(shard: usize, trial: u64) -> String {
+    // a loopback address of our own: nobody else can later bind the same (address, port)
+    format!("127.{}.{}.{}", 1 + (std::process::id() % 100), shard + 1, 1 + (trial % 250))
+}
+
+fn try_connect(addr: &Addr) -> Result<(), String> {
+    match addr {
+        Addr::Tcp(sa) => match std::net::TcpStream::connect_timeout(sa, Duration::from_millis(500)) {
+            Ok(_) => Ok(()),
+            Err(e) => Err(format!("{:?}", e.kind())),
+        },
+        Addr::Unix(p) => match std::os::unix::net::UnixStream::connect(p) {
+            Ok(_) => Ok(()),
+            Err(e) => Err(format!("{:?}", e.kind())),
+        },
+    }
+}
+
+fn trial_a(ctx: &Ctx, cs: u64) {
+    let rep = &ctx.rep;
+    let mut rng = Rng::new(cs);
+    let unix = rng.chance(1, 3);
+    let trial = cs & 0xffff_ffff;
+    let (server, addr) = if unix {
+        let dir = std::env::current_exe().unwrap().parent().unwrap().join("socks");
+        let _ = std::fs::create_dir_all(&dir);
+        let p = dir.join(format!("c20-{}-{:x}", std::process::id(), trial));
+        let _ = std::fs::remove_file(&p);
+        match Server::http_unix(&p) {
+            Ok(s) => (s, Addr::Unix(p)),
+            Err(e) => {
+                rep.inconclusive(&format!("bind unix: {}", e));
+                return;
+            }
+        }
+    } else {
+        let ip = own_ip(ctx.shard, trial);
+        match Server::http(format!("{}:0", ip)) {
+            Ok(s) => {
+                let a = s.server_addr().to_ip().unwrap();
+                (s, Addr::Tcp(a))
+            }
+            Err(e) => {
+                rep.inconclusive(&format!("bind tcp {}: {}", ip, e));
+                return;
+            }
+        }
+    };
+    let cal = CalWindow::open();
+    // clients: `handed` requests will be received by the application before the drop, `queued`
+    // stay in the queue, `connecting` threads keep connecting across the drop
+    let handed = rng.below(4);
+    let queued = rng.below(3);
+    let connectors = rng.below(3);
+    let mut clients: Vec<Client> = Vec::new();
+    for i in 0..handed + queued {
+        match Client::connect(&addr) {
+            Ok(mut c) => {
+                c.send(format!("GET /s/{:x}/{} HTTP/1.1\r\nHost: h\r\n\r\n", trial, i).as_bytes());
+                clients.push(c);
+            }
+            Err(e) => {
+                rep.inconclusive(&format!("connect before drop: {}", e));
+                return;
+            }
+        }
+    }
+    let mut held = Vec::new();
+    for _ in 0..handed {
+        match lib(|| server.recv_timeout(Duration::from_millis(1500))) {
+            Ok(Some(rq)) => held.push(rq),
+            _ => {
+                rep.inconclusive("request not received before drop");
+                return;
+            }
+        }
+    }
+    let stop = Arc::new(AtomicBool::new(false));
+    let successes_after = Arc::new(AtomicUsize::new(0));
+    let mut chs = Vec::new();
+    for i in 0..connectors {
+        let (addr, stop) = (addr.clone(), stop.clone());
+        chs.push(spawn_named(&format!("conn{}", i), move || {
+            let mut n = 0usize;
+            while !stop.load(Ordering::SeqCst) {
+                if let Ok(mut c) = Client::connect(&addr) {
+                    c.send(b"GET /s/x HTTP/1.1\r\nHost: h\r\n\r\n");
+                    n += 1;
+                }
+                sleep_us(150);
+            }
+            n
+        }));
+    }
+    sleep_us(rng.range(0, 3000) as u64);
+    // the drop
+    let t_drop = Instant::now();
+    lib(|| drop(server));
+    let drop_us = t_drop.elapsed().as_micros() as u64;
+    let mut finding: Option<(String, String)> = None;
+    if let Addr::Unix(p) = &addr {
+        if p.exists() {
+            finding = Some(("C20/unix-path-not-removed".into(), format!("{} still exists after drop(server) returned", p.display())));
+        }
+    }
+    // handed-out requests can still be answered
+    let answer_delay_ms = rng.range(0, 50) as u64;
+    let mut hs = Vec::new();
+    // which clients' requests were handed out (any of the connections may have been first)
+    let held_ids: Vec<usize> = held.iter().filter_map(|rq| rq.url().rsplit('/').next().and_then(|s| s.parse().ok())).collect();
+    for (i, rq) in held.into_iter().enumerate() {
+        hs.push(spawn_named(&format!("ans{}", i), move || {
+            std::thread::sleep(Duration::from_millis(answer_delay_ms));
+            let id = rq.url().to_string();
+            lib(|| rq.respond(Response::from_string(format!("late {}", id)))).map_err(|e| e.to_string())
+        }));
+    }
+    // refusal
+    let mut first_refused: Option<u64> = None;
+    let mut accepted_after_refusal = false;
+    let mut last_err = String::new();
+    let poll_t0 = Instant::now();
+    while poll_t0.elapsed() < Duration::from_millis(1300) {
+        match try_connect(&addr) {
+            Ok(()) => {
+                if first_refused.is_some() {
+                    accepted_after_refusal = true;
+                }
+                successes_after.fetch_add(1, Ordering::SeqCst);
+            }
+            Err(e) => {
+                last_err = e;
+                if first_refused.is_none() {
+                    first_refused = Some(t_drop.elapsed().as_micros() as u64);
+                }
+            }
+        }
+        if let Some(fr) = first_refused {
+            // keep polling for 100 ms after the first refusal: it must stay refused
+            if t_drop.elapsed().as_micros() as u64 > fr + 100_000 {
+                break;
+            }
+        }
+        std::thread::sleep(Duration::from_millis(5));
+    }
+    stop.store(true, Ordering::SeqCst);
+    for h in chs {
+        let _ = h.join();
+    }
+    let mut respond_errs = Vec::new();
+    for h in hs {
+        match h.join() {
+            Ok(Ok(())) => {}
+            Ok(Err(e)) => respond_errs.push(e),
+            Err(_) => respond_errs.push("handler panicked".into()),
+        }
+    }
+    // the clients of handed-out requests must get complete responses
+    let mut got_late = 0;
+    for (ci, c) in clients.iter_mut().enumerate() {
+        if !held_ids.contains(&ci) {
+            continue;
+        }
+        if let Got::Msg = c.await_finals(1, &|_| false, Duration::from_millis(1500)) {
+            if c.msgs.last().map(|m| m.0.status == 200 && m.0.body.starts_with(b"late ")).unwrap_or(false) {
+                got_late += 1;
+            }
+        }
+    }
+    let healthy = cal.healthy(Duration::from_millis(150));
+    if finding.is_none() {
+        match first_refused {
+            None => {
+                if healthy {
+                    finding = Some((
+                        "C20/still-accepting".into(),
+                        format!("connection attempts still succeed {} ms after drop(server)", poll_t0.elapsed().as_millis()),
+                    ));
+                } else {
+                    rep.inconclusive("still accepting, calibrator unhealthy");
+                    return;
+                }
+            }
+            Some(us) => {
+                rep.counts.max("max_time_to_refusal_us", us);
+                if accepted_after_refusal {
+                    finding = Some(("C20/accepting-again-after-refusal".into(), "a connection attempt succeeded after one had been refused".into()));
+                }
+            }
+        }
+    }
+    if finding.is_none() && !respond_errs.is_empty() {
+        finding = Some(("C20/respond-after-drop-failed".into(), format!("respond on a handed-out request after drop(server) failed: {}", respond_errs[0])));
+    }
+    if finding.is_none() && got_late != handed {
+        if healthy {
+            finding = Some((
+                "C20/handed-out-request-not-answerable".into(),
+                format!("{} requests were handed out before the drop, only {} responses reached their clients", handed, got_late),
+            ));
+        } else {
+            rep.inconclusive("late responses missing, calibrator unhealthy");
+            return;
+        }
+    }
+    rep.inc(if unix { "a:unix" } else { "a:tcp" });
+    rep.counts.add("a_handed_out_answered_after_drop", got_late as u64);
+    rep.counts.max("a_max_drop_call_us", drop_us);
+    rep.eval(Some(&format!("a|{}|h{}|q{}|c{}|d{}", if unix { "unix" } else { "tcp" }, handed, queued, connectors, answer_delay_ms / 10)));
+    let detail = J::obj()
+        .set("transport", J::s(if unix { "unix" } else { "tcp" }))
+        .set("address", J::s(format!("{:?}", addr)))
+        .set("handed_out_before_drop", J::u(handed))
+        .set("queued_not_received", J::u(queued))
+        .set("connector_threads", J::u(connectors))
+        .set("drop_call_us", J::I(drop_us as i64))
+        .set("first_refusal_us_after_drop", first_refused.map(|x| J::I(x as i64)).unwrap_or(J::Null))
+        .set("refusal_error", J::s(&last_err))
+        .set("connects_succeeded_after_drop", J::u(successes_after.load(Ordering::SeqCst)))
+        .set("late_responses_received", J::u(got_late))
+        .set("answer_delay_ms", J::I(answer_delay_ms as i64));
+    if let Some((sig, what)) = finding {
+        rep.violation(Violation { signature: sig, what, detail, case_seed: cs, mode: "a".into() });
+    } else if rep.want_sample() && cs % 5 == 0 {
+        rep.sample(|| detail.set("workload", J::s("a")));
+    }
+    drop(clients);
+}
+
+fn burst(addr: &Addr, n: usize, tag: &str) -> (Vec<Client>, usize) {
+    let mut hs = Vec::new();
+    let bar = Arc::new(std::sync::Barrier::new(n));
+    for i in 0..n {
+        let (addr, bar, tag) = (addr.clone(), bar.clone(), tag.to_string());
+        hs.push(spawn_named(&format!("bu{}", i), move || {
+            bar.wait();
+            // staggered a little: simultaneous arrival is C08's subject, not this one's
+            sleep_us((i as u64) * 300);
+            let mut c = Client::connect(&addr).ok()?;
+            c.send(format!("GET /t/{}/{} HTTP/1.1\r\nHost: h\r\n\r\n", tag, i).as_bytes());
+            let ok = matches!(c.await_finals(1, &|_| false, Duration::from_millis(3000)), Got::Msg);
+            Some((c, ok))
+        }));
+    }
+    let mut cs = Vec::new();
+    let mut answered = 0;
+    for h in hs {
+        if let Ok(Some((c, ok))) = h.join() {
+            if ok {
+                answered += 1;
+            }
+            cs.push(c);
+        }
+    }
+    (cs, answered)
+}
+
+fn trial_b(ctx: &Ctx, cs: u64) {
+    let rep = &ctx.rep;
+    let mut rng = Rng::new(cs);
+    let n = *rng.pick(&[5usize, 8, 16, 64]);
+    let t0 = library_thread_count();
+    let ip = own_ip(ctx.shard, cs);
+    let server = match Server::http(format!("{}:0", ip)) {
+        Ok(s) => Arc::new(s),
+        Err(e) => {
+            rep.inconclusive(&format!("bind: {}", e));
+            return;
+        }
+    };
+    let addr = Addr::Tcp(server.server_addr().to_ip().unwrap());
+    let stop = Arc::new(AtomicBool::new(false));
+    let (s2, stop2) = (server.clone(), stop.clone());
+    let app = spawn_named("app", move || {
+        while !stop2.load(Ordering::SeqCst) {
+            if let Ok(Some(rq)) = lib(|| s2.recv_timeout(Duration::from_millis(20))) {
+                let _ = lib(|| rq.respond(Response::from_string("ok")));
+            }
+        }
+    });
+    std::thread::sleep(Duration::from_millis(60));
+    let t1 = library_thread_count();
+    let (conns, answered1) = burst(&addr, n, "one");
+    let t_peak = library_thread_count();
+    drop(conns);
+    // idle period of the pool (5 s) plus margin
+    std::thread::sleep(Duration::from_millis(5000 + 2000));
+    let t2 = library_thread_count();
+    // dispatch after retirement: a second burst is still served
+    let n2 = *rng.pick(&[3usize, 6, 9]);
+    let (conns2, answered2) = burst(&addr, n2, "two");
+    let t_peak2 = library_thread_count();
+    drop(conns2);
+    stop.store(true, Ordering::SeqCst);
+    let _ = app.join();
+    match Arc::try_unwrap(server) {
+        Ok(s) => lib(|| drop(s)),
+        Err(_) => {
+            rep.inconclusive("server still shared");
+            return;
+        }
+    }
+    std::thread::sleep(Duration::from_millis(7000));
+    let t3 = library_thread_count();
+    rep.inc("b:trials");
+    let nontrivial = t_peak > t1;
+    let bsig = format!("b|N{}|N2_{}|peak{}", n, n2, t_peak);
+    rep.eval(if nontrivial { Some(&bsig) } else { None });
+    let detail = J::obj()
+        .set("burst", J::u(n))
+        .set("second_burst", J::u(n2))
+        .set("library_threads_before_server", J::u(t0))
+        .set("library_threads_idle_server_T1", J::u(t1))
+        .set("library_threads_peak", J::u(t_peak))
+        .set("library_threads_after_idle_period_T2", J::u(t2))
+        .set("library_threads_second_peak", J::u(t_peak2))
+        .set("library_threads_7s_after_drop", J::u(t3))
+        .set("answered_first_burst", J::u(answered1))
+        .set("answered_second_burst", J::u(answered2));
+    let mut finding: Option<(String, String)> = None;
+    if answered1 != n {
+        // a stalled burst is C08's finding; here it only makes the trial unusable
+        rep.inconclusive("first burst not fully answered (see C08)");
+        return;
+    }
+    if t2 > t1 {
+        finding = Some((
+            "C20/idle-workers-not-reclaimed".into(),
+            format!("{} library threads before the burst, {} at the peak, still {} seven seconds after all connections were closed", t1, t_peak, t2),
+        ));
+    } else if answered2 != n2 {
+        finding = Some(("C20/no-dispatch-after-retirement".into(), format!("second burst: {} of {} answered", answered2, n2)));
+    } else if t3 > t0 {
+        finding = Some((
+            "C20/threads-left-after-drop".into(),
+            format!("{} library threads before the server existed, {} seven seconds after it was dropped", t0, t3),
+        ));
+    }
+    if let Some((sig, what)) = finding {
+        rep.violation(Violation { signature: sig, what, detail, case_seed: cs, mode: "b".into() });
+    } else {
+        rep.sample(|| detail.set("workload", J::s("b")));
+    }
+}
+
+pub fn run(ctx: &Ctx) {
+    crate::env::install_fp_hook();
+    if let Some((cs, mode, repeat)) = &ctx.replay {
+        for _ in 0..(*repeat).max(1) {
+            if mode == "b" {
+                trial_b(ctx, *cs);
+            } else {
+                crate::env::fp_configure(*cs, &[v::FP_ACCEPTED], 300, 2000);
+                trial_a(ctx, *cs);
+            }
+        }
+        return;
+    }
+    let mut rng = Rng::new(ctx.seed ^ ((ctx.shard as u64) << 32) ^ 0xC20);
+    if ctx.shard % 2 == 0 {
+        // (b): process-wide thread counts, one trial at a time, nothing else in this process
+        let mut idx = 0u64;
+        loop {
+            trial_b(ctx, ctx.case_seed(idx));
+            idx += 1;
+            // a trial needs ~15 s; start another one only if the budget allows
+            if ctx.elapsed_ms() + 16_000 > ctx.budget_ms || ctx.rep.n_violations() > 0 {
+                break;
+            }
+        }
+    } else {
+        let pert = crate::env::perturb_setup(&mut rng, ctx.shard, true);
+        let permille = *rng.pick(&[0u32, 200, 500]);
+        crate::env::fp_configure(ctx.seed ^ ctx.shard as u64, &[v::FP_ACCEPTED], permille, 2000);
+        let mut idx = 0u64;
+        while ctx.time_left() && ctx.rep.n_violations() < 6 {
+            trial_a(ctx, ctx.case_seed(idx));
+            idx += 1;
+        }
+        ctx.rep.set_extra("perturbation", J::s(format!("{} fp_delay_permille={}", pert.desc, permille)));
+    }
 }
